@@ -16,9 +16,12 @@ import (
 	"io"
 	"log"
 	"os"
+	"runtime"
 	"runtime/debug"
 	"sort"
+	"strconv"
 	"strings"
+	"time"
 )
 
 // rng is a splitmix64 generator: every random choice of every generator derives from
@@ -135,7 +138,20 @@ func main() {
 				if len(toks) > 0 && toks[0] == name {
 					toks = toks[1:]
 				}
-				res := safeRun(st, line, toks)
+				// an operation that does not return wedges every operation behind it: after the deadline it is answered "hang",
+				// the goroutines are dumped to stderr and the process ends (the operations behind it are then reported as not run)
+				resc := make(chan string, 1)
+				go func() { resc <- safeRun(st, line, toks) }()
+				var res string
+				select {
+				case res = <-resc:
+				case <-time.After(opDeadline()):
+					out.WriteString("hang\n")
+					out.Flush()
+					buf := make([]byte, 1<<20)
+					fmt.Fprintf(os.Stderr, "operation did not return within %s: %s\n%s\n", opDeadline(), line, buf[:runtime.Stack(buf, true)])
+					os.Exit(3)
+				}
 				out.WriteString(res)
 				out.WriteByte('\n')
 				out.Flush()
@@ -148,6 +164,15 @@ func main() {
 		fmt.Fprintln(os.Stderr, "unknown mode", mode)
 		os.Exit(2)
 	}
+}
+
+// opDeadline: how long one operation may take (VERIF_OP_DEADLINE_S, default 300 s; the longest legitimate operations - scripted
+// peer scenarios, bursts of thousands of requests, files of 130 MB - stay below a minute)
+func opDeadline() time.Duration {
+	if v, err := strconv.Atoi(os.Getenv("VERIF_OP_DEADLINE_S")); err == nil && v > 0 {
+		return time.Duration(v) * time.Second
+	}
+	return 300 * time.Second
 }
 
 func safeRun(st *stream, line string, toks []string) (res string) {
